@@ -434,6 +434,9 @@ pub struct ProjectKnobs {
     pub allow_file_input: bool,
     pub allow_bundle: bool,
     pub memory_safe: bool,
+    /// a bundled module may live above the working directory (`../outside/lib.lua`);
+    /// not on the real file system, where the scratch directory is the working directory
+    pub allow_outside: bool,
 }
 
 pub fn gen_project(rng: &mut Rng, knobs: &ProjectKnobs) -> Project {
@@ -546,6 +549,18 @@ pub fn gen_project(rng: &mut Rng, knobs: &ProjectKnobs) -> Project {
         }
     }
     let mut other: Vec<FsEntry> = Vec::new();
+    if bundle.is_some() && knobs.allow_outside && rng.chance(1, 5) {
+        // required through a path that first descends and then climbs above its start
+        let outside = "../outside/lib.lua".to_owned();
+        let requirer = rng.below(sources.len());
+        if !(luau && is_module_folder_file(&sources[requirer].path)) && !sources[requirer].bare {
+            sources[requirer].requires.push(outside.clone());
+            other.push(FsEntry {
+                path: outside,
+                body: Body::Text("mark(\"outside_0\")\nreturn { \"outside\" }\n".to_owned()),
+            });
+        }
+    }
     let mut aliases: Vec<AliasDef> = Vec::new();
     if bundle.is_some() && !input_is_file && rng.chance(1, 3) {
         // two .luaurc files defining the same alias differently: which one governs a
